@@ -226,6 +226,12 @@ class Builder:
             return pt.App.globalGet(B(a[0]))
         if k == "GDel":
             return pt.App.globalDel(B(a[0]))
+        if k == "LPut":
+            return pt.App.localPut(B(a[0]), B(a[1]), B(a[2]))
+        if k == "LGet":
+            return pt.App.localGet(B(a[0]), B(a[1]))
+        if k == "LDel":
+            return pt.App.localDel(B(a[0]), B(a[1]))
         if k == "MV":
             args = [B(x) for x in a]
             if node["s"] == "GGetEx":
